@@ -18,8 +18,10 @@ func nestedOracle(c *Case, obs []CallObs) (string, string) {
 		at     []int     // index in the case (-1: part of the initial construction)
 		sticky string    // class of its build error
 		frozen int       // index of the call that compiled it successfully, -1 = not yet
+		kind   string    // graph | chain | workflow
+		touch  int       // chain: index of the first Append* made after it was compiled, -1 = none
 	}
-	outer := &builder{name: "the outer graph", frozen: -1}
+	outer := &builder{name: "the outer graph", frozen: -1, touch: -1, kind: "graph"}
 	inners := map[string]*builder{}
 	attached := map[string]bool{} // inner values held by an accepted node of the outer graph
 	var ids []string
@@ -29,6 +31,17 @@ func nestedOracle(c *Case, obs []CallObs) (string, string) {
 	ok := CallObs{K: "ok"}
 	// a direct call on a builder: sticky error and no modification after a Compile
 	direct := func(b *builder, k *Call, o CallObs, i int) (string, string) {
+		if b.kind != "graph" {
+			// the Append* / declaring calls of a Chain / Workflow return nothing: what they did wrong is reported by the
+			// next Compile (spec.go judges the projection below); here: a compiled Chain that was appended to
+			if b.kind == "chain" && isAdd(k.Op) && b.frozen >= 0 && b.touch < 0 {
+				b.touch = i
+			}
+			if b.kind == "chain" && k.Op == "compile" && o.K == "ok" && b.touch >= 0 {
+				return "modified-after-compile", fmt.Sprintf("Compile at %d of %s succeeded although it was appended to (call %d) after the Compile at %d had compiled it", i, b.name, b.touch, b.frozen)
+			}
+			return "", ""
+		}
 		if b.sticky != "" && (o.K != "err" || o.Cls != b.sticky) {
 			return "not-sticky", fmt.Sprintf("call %d on %s returned %s/%s after the build error %s", i, b.name, o.K, o.Cls, b.sticky)
 		}
@@ -48,13 +61,24 @@ func nestedOracle(c *Case, obs []CallObs) (string, string) {
 		case "sub":
 			in, have := inners[k.ID]
 			if !have {
-				in = &builder{name: "the inner graph " + k.ID, frozen: -1}
+				in = &builder{name: "the inner graph " + k.ID, frozen: -1, touch: -1, kind: "graph"}
+				switch k.Kind {
+				case "subchain", "subchainbad":
+					in.kind, in.name = "chain", "the inner chain "+k.ID
+				case "subwf", "subwfbad":
+					in.kind, in.name = "workflow", "the inner workflow "+k.ID
+				}
 				inners[k.ID] = in
 				ids = append(ids, k.ID)
-				add(in, Call{Op: "addnode", Key: "s", Kind: "lambda"}, ok, -1)
-				if k.Kind != "subbad" {
-					add(in, Call{Op: "addedge", From: "start", To: "s"}, ok, -1)
-					add(in, Call{Op: "addedge", From: "s", To: "end"}, ok, -1)
+				if in.kind == "graph" {
+					add(in, Call{Op: "addnode", Key: "s", Kind: "lambda"}, ok, -1)
+					if k.Kind != "subbad" {
+						add(in, Call{Op: "addedge", From: "start", To: "s"}, ok, -1)
+						add(in, Call{Op: "addedge", From: "s", To: "end"}, ok, -1)
+					}
+				}
+				for _, ic := range childInit(k.Kind) {
+					add(in, ic, ok, -1)
 				}
 			}
 			node := Call{Op: "addnode", Key: k.Key, Kind: "lambda"}
@@ -89,6 +113,9 @@ func nestedOracle(c *Case, obs []CallObs) (string, string) {
 				// the children have been compiled with their nodes' options (none)
 				for _, id := range ids {
 					if in := inners[id]; attached[id] {
+						if in.kind == "chain" && in.touch >= 0 {
+							return "modified-after-compile", fmt.Sprintf("Compile at %d succeeded although %s, a node of the graph, was appended to (call %d) after the Compile at %d had compiled it", i, in.name, in.touch, in.frozen)
+						}
 						add(in, Call{Op: "compile"}, ok, i)
 						if in.frozen < 0 {
 							in.frozen = i
@@ -106,8 +133,8 @@ func nestedOracle(c *Case, obs []CallObs) (string, string) {
 		}
 		return
 	}()...) {
-		pc := &Case{FE: "graph", State: c.State && b == outer, Calls: b.calls}
-		if sig, what := specGraph(pc, b.obs); sig != "" {
+		pc := &Case{FE: b.kind, State: c.State && b == outer, Calls: b.calls}
+		if sig, what := acceptedIllFormed(pc, b.obs); sig != "" {
 			return sig, what + fmt.Sprintf(" (calls made on %s, numbered within it; case indices %v)", b.name, b.at)
 		}
 	}
